@@ -9,7 +9,10 @@ bind : TLC-generated histories shaped for expiry (half of the Sets carry an expi
        {2, 4}, Tick steps weighted 2x, writes 4x, clock override y.VerifSetClock) with flush / compaction /
        value-log GC steps; every Get and iterator (also AllVersions, reverse, SinceTs) is compared
        with the prediction, and the whole visible content is read through the plain iterator, the
-       Stream framework (Stream.Orchestrate) and Backup (+ Load into a scratch DB) and compared."""
+       Stream framework (Stream.Orchestrate) and Backup (+ Load into a scratch DB) and compared.
+       Plus every LSM-ordered placement of every store of <= 2 versions (value / tombstone / expired)
+       over 2 keys across 7 sources, SetDiscardTs, one compaction Li -> Li+1 with older versions in the
+       levels below: an expired newest version must keep hiding them."""
 import os, sys
 sys.path.insert(0, os.path.dirname(os.path.abspath(__file__)))
 import lib_kv as K
@@ -55,7 +58,7 @@ def body(c):
                                                K.tla_opts(all=True, rev=True)]))
     # Exps without 0: ExpOf gives "no expiry" only through Min(Exps) = 2 for odd value ids; add 0 for a mix
     sim["Exps"] = "{0, 2, 3, 4}"
-    n = 450 if q else 4000
+    n = 450 if q else 2000
     sims = K.generate(c, "sim-expiry", sim, n, 34, c.seed, workers=8 if q else 12, timeout=1800)
     hist = K.op_histogram(sims)
     c.cov["generated_op_histogram"] = hist
@@ -74,8 +77,11 @@ def body(c):
         K.replay(c, sims, conf, c.seed, "sim-expiry", keys=tab, collect=stats)
     c.cov["observations_compared"] = {k: v for k, v in stats.items() if k.startswith(("scan", "get", "iter", "dump"))}
     c.cov["env_steps_executed"] = {k: stats.get(k, 0) for k in K.ENV_ALL}
+    # expired newest versions across physical layouts, then a compaction into a level that still has
+    # older versions below it (the expired version must keep hiding them)
+    nlay = K.layout_stage(c, tab, c.seed, "layouts-expiry", q, parts=("compact",) if q else ("all", "compact"))
     good = [h for h, p in zip(sims, prof) if p[1] > 0]
-    c.add_cases(len(sims) * len(confs), set(K.hist_key(h) for h in good), traces=len(sims) * len(confs))
+    c.add_cases(len(sims) * len(confs) + nlay, set(K.hist_key(h) for h in good), traces=len(sims) * len(confs) + nlay)
     c.cov["rule"] = ("histories are behaviours of BadgerKVGen (TLC -simulate, length 34, shaped: expiring Sets and Tick steps "
                      "frequent); non-trivial = a read is issued while the newest committed version of some key is expired; distinct = "
                      "distinct step sequences")
